@@ -397,10 +397,26 @@ def _case(draw):
             else:
                 Xq.append(draw(st.lists(coord, min_size=d, max_size=d)))
 
-    return dict(component=clfreg.label(cfg), cfg=cfg, labels=list(labels),
+    case = dict(component=clfreg.label(cfg), cfg=cfg, labels=list(labels),
                 declared=declared, mode=mode, X=X, y=y, w=w,
                 fit_method=fit_method, split=split, Xq=Xq,
                 planted_cls=planted_cls, tags=tags)
+    # "after fit on ANY admissible training set" includes a fit of an object
+    # that was fitted before: an earlier, fully labeled training set
+    if ((fit_method == "fit" or comp == "SWC")
+            and draw(st.integers(0, 3)) == 0):
+        dq = len(Xq[0])
+        n0 = draw(st.integers(4, 6))
+        if comp == "MMC":
+            mm = cfg["params"]["mixture"]
+            n0 = max(n0, K if mm is None else mm["n_components"])
+        X0 = draw(_rows(n0, dq))
+        perm = draw(st.permutations(list(range(K))))
+        y0 = [perm[i % K] for i in range(n0)]
+        if multi:
+            y0 = [[c] * A for c in y0]
+        case["prior_fit"] = {"X": X0, "y": y0}
+    return case
 
 
 def case_strategy(tier, shard=0, nshards=1):
@@ -562,6 +578,22 @@ def _mixture_separates(clf, X, y_idx, Xq, planted_cls):
 
 
 def run_case(case):
+    out = _run_once(case)
+    if case.get("prior_fit") is None:
+        return out
+    out.labels.append("also_as_refit")
+    if out.violations:
+        return out  # reported as for a fresh object
+    again = _run_once(case, refit=True)
+    for v in again.violations:
+        v.trigger += "&after_earlier_fit"
+    again.labels = out.labels + [l for l in again.labels
+                                 if l.startswith("prior_fit")]
+    again.nontrivial = out.nontrivial
+    return again
+
+
+def _run_once(case, refit=False):
     cfg = case["cfg"]
     comp = clfreg.label(cfg)
     kind = cfg["kind"]
@@ -643,6 +675,16 @@ def run_case(case):
             lab.append("mixture_prefit_rejected_by_sklearn")
             return done()
         raise HarnessError(f"cannot build {comp}: {clf!r}")
+    if refit:
+        pf = case["prior_fit"]
+        X0 = np.array(pf["X"], dtype=float).reshape(len(pf["X"]), d)
+        y0 = clfreg.make_y(pf["y"], labels, cfg["missing_label"])
+        ok, r = guarded(clf.fit, X0, y0)
+        if not ok:
+            # the earlier training set is only a means: not judged here
+            lab.append(f"prior_fit_rejected:{type(r).__name__}")
+            return done()
+        lab.append("prior_fit_done")
     ok, r = guarded(_fit, clf, case, X, y, w)
     if not ok:
         if kind == "MixtureModelClassifier" and _raised_in_sklearn_mixture(r):
